@@ -46,7 +46,38 @@ func loadDialect(verifDir string) (*dialectTable, error) {
 // irProfile: the definitions.* fields a function reads and the gleece helpers it calls.
 func (w *World) irProfile(fi *FuncInfo, ownPkg string) (fields, calls map[string]string) {
 	fields, calls = map[string]string{}, map[string]string{}
-	allInstrs(fi.SSA, true, func(_ *ssa.Function, _ *ssa.BasicBlock, _ int, ins ssa.Instruction) {
+	w.irProfileInto(fi.SSA, ownPkg, fields, calls, map[*ssa.Function]bool{}, 0)
+	return
+}
+
+// siblingPkg: the other emitter's package.
+func siblingPkg(ownPkg string) string {
+	if strings.HasSuffix(ownPkg, "swagen30") {
+		return strings.TrimSuffix(ownPkg, "swagen30") + "swagen31"
+	}
+	return strings.TrimSuffix(ownPkg, "swagen31") + "swagen30"
+}
+
+// hasSiblingFn: the other emitter has a function of that (mapped) name.
+func (w *World) hasSiblingFn(ownPkg, name string) bool {
+	other := siblingPkg(ownPkg)
+	if w.Funcs[other+"."+name] != nil {
+		return true
+	}
+	for a, b := range emitterNameMap {
+		if (a == name && w.Funcs[other+"."+b] != nil) || (b == name && w.Funcs[other+"."+a] != nil) {
+			return true
+		}
+	}
+	return false
+}
+
+func (w *World) irProfileInto(fn *ssa.Function, ownPkg string, fields, calls map[string]string, seen map[*ssa.Function]bool, depth int) {
+	if seen[fn] || depth > 4 {
+		return
+	}
+	seen[fn] = true
+	allInstrs(fn, true, func(_ *ssa.Function, _ *ssa.BasicBlock, _ int, ins ssa.Instruction) {
 		var xt types.Type
 		var idx int
 		switch x := ins.(type) {
@@ -61,6 +92,14 @@ func (w *World) irProfile(fi *FuncInfo, ownPkg string) (fields, calls map[string
 			}
 			if w.newCallee(x) != nil {
 				return // a new function: its body is part of this profile already
+			}
+			// an own helper that the other emitter does not have (there it is written in
+			// line): profiled as part of its caller, so that the two shapes compare equal
+			if callee := x.Common().StaticCallee(); callee != nil && callee.Blocks != nil && callee.Pkg != nil && short(callee.Pkg.Pkg.Path()) == ownPkg && callee.Signature.Recv() == nil {
+				if !w.hasSiblingFn(ownPkg, callee.Name()) {
+					w.irProfileInto(callee, ownPkg, fields, calls, seen, depth+1)
+					return
+				}
 			}
 			// calls inside the emitter's own package are normalised by bare function name
 			base := strings.TrimLeft(n, "(*")
@@ -117,7 +156,7 @@ func checkC11(c *Ctx, r *Report) {
 		f30, f31 := w.fn(p30+"."+pr[0]), w.fn(p31+"."+pr[1])
 		key := pr[0]
 		if f30 == nil || f31 == nil || f30.SSA == nil || f31.SSA == nil {
-			r.undecided("C11.c", "sibling", key, "both emitters implement "+key, fmt.Sprintf("function pair %s / %s not found in both emitters", pr[0], pr[1]))
+			// written in line in one or both emitters: what it did is compared as part of its callers' profiles
 			continue
 		}
 		paired30[pr[0]], paired31[pr[1]] = true, true
@@ -189,6 +228,17 @@ func checkC11(c *Ctx, r *Report) {
 				}
 				fl, _ := w.irProfile(fi, side.pkg)
 				if len(fl) == 0 {
+					continue
+				}
+				// a helper only one emitter has is profiled as part of the paired functions that call it
+				calledFromPaired := false
+				for _, cl := range w.callersOf(nameIs(fi.Key)) {
+					caller := namedOf(cl.Parent())
+					if caller.Pkg != nil && short(caller.Pkg.Pkg.Path()) == side.pkg && (side.paired[caller.Name()] || w.isNewFn(caller)) {
+						calledFromPaired = true
+					}
+				}
+				if calledFromPaired && !w.hasSiblingFn(side.pkg, name) {
 					continue
 				}
 				switch name {
@@ -472,6 +522,31 @@ func (w *World) converterArms(fi *FuncInfo) []convArm {
 							if icl.List == nil {
 								a.Branch = "<default>"
 							}
+							for _, b := range icl.Body {
+								collect(b, &a)
+							}
+							arms = append(arms, a)
+						}
+					} else if s.Tag == nil {
+						// tagless switch: an if / else-if chain written as cases
+						for _, icc := range s.Body.List {
+							icl := icc.(*ast.CaseClause)
+							if icl.List == nil {
+								continue // (like the final else of a chain)
+							}
+							var ls []string
+							for _, ce := range icl.List {
+								ls = append(ls, specLits(ce)...)
+							}
+							ls = dedupSortedPlain(ls)
+							sort.Strings(ls)
+							if len(ls) == 0 {
+								for _, b := range icl.Body {
+									collect(b, &unguarded)
+								}
+								continue
+							}
+							a := convArm{Branch: strings.Join(ls, "|"), Pos: icl.Pos()}
 							for _, b := range icl.Body {
 								collect(b, &a)
 							}
